@@ -27,10 +27,10 @@ import (
 )
 
 type c14Stats struct {
-	histories, calls, modeChecks, blockedSeen, datagrams, packets int64
+	histories, calls, modeChecks, blockedSeen, datagrams, packets   int64
 	bytesSent, bytesRcvd, rcvCalls, rcvPackets, timeouts, ptoProbes int64
-	acks, validations, permittedLast, sendAny, sendOther             int64
-	maxOvershoot                                                     int64
+	acks, validations, permittedLast, sendAny, sendOther            int64
+	maxOvershoot                                                    int64
 }
 
 func (s *c14Stats) flush(l *evlog.Log) {
@@ -318,7 +318,7 @@ func (r *c14Run) report(c *evlog.Case, seen map[string]int, inputs any) {
 		return
 	}
 	seen[r.sig]++
-	if seen[r.sig] > 2 {
+	if seen[r.sig] > 3 {
 		c.Count("violations_same_signature_not_logged", 1)
 		return
 	}
@@ -374,6 +374,7 @@ func TestVerifC14AmpExhaustive(t *testing.T) {
 	maxLen := l.Pick(6, 8)
 	k := len(c14Alphabet)
 	var st c14Stats
+	seen := map[string]int{} // per shard: a signature is logged with its trace at most 3 times
 	idx := 0
 	for n := 1; n <= maxLen; n++ {
 		// one case per (length, first two ops)
@@ -392,7 +393,6 @@ func TestVerifC14AmpExhaustive(t *testing.T) {
 			if c == nil {
 				continue
 			}
-			seen := map[string]int{}
 			seq := make([]int, n)
 			fixed := min(n, 2)
 			if n == 1 {
@@ -528,6 +528,7 @@ func TestVerifC14AmpRandom(t *testing.T) {
 	n := l.Pick(400000, 8000000)
 	const batch = 1000
 	var st c14Stats
+	seen := map[string]int{} // per shard
 	for bi := 0; bi*batch < n; bi++ {
 		if !l.Mine(bi) {
 			continue
@@ -538,7 +539,6 @@ func TestVerifC14AmpRandom(t *testing.T) {
 			continue
 		}
 		rng := l.Rand(id)
-		seen := map[string]int{}
 		for k := 0; k < batch; k++ {
 			r := c14RunRandom(rng, &st)
 			fp := ""
